@@ -252,10 +252,146 @@ def enum_validate_histories(seed):
             "x the same / a fresh cache object, on the real validate_entry and rebuild_cache_entry", "cases": cases, "failures": fails}
 
 
+def enum_update_metadata(seed):
+    """the producer side: what the real package_factory._update_metadata records for an ebuild whose sourced INHERITED lists direct and
+    nested eclasses -- every one of them has to be in the entry's eclass record, whatever the names look like"""
+    import contextlib
+    import types
+    import pkgcore.ebuild.ebuild_src as ES
+    from pkgcore.ebuild.eapi import get_eapi
+    names = ["multilib", "multilib-minimal", "cmake", "cmake-multilib", "e1", "e10", "x", "toolchain-funcs"]
+    cases, fails = 0, []
+    combos = [(d, n) for d in (("multilib-minimal",), ("cmake-multilib", "e10"), ("e1",), ("x", "multilib"), ("toolchain-funcs", "cmake-multilib", "e10"))
+              for n in ((), ("multilib",), ("cmake", "multilib"), ("e1", "x"), ("e10", "e1", "cmake"))]
+    for direct, nested in combos:
+        for order in ("direct_first", "nested_first"):
+            inherited = [x for x in nested if x not in direct]
+            inherited = list(direct) + inherited if order == "direct_first" else inherited + list(direct)
+            asked, written = [], []
+
+            class Ecache:
+                def get_eclass_data(self, inherits):
+                    asked.append(list(inherits))
+                    return tuple((x, (("mtime", 1),)) for x in inherits)
+
+            class Cache:
+                readonly = False
+
+                def __setitem__(self, k, v):
+                    written.append((k, dict(v)))
+
+            class Proc:
+                def get_keys(self, pkg, ecache):
+                    return {"EAPI": "8", "DEFINED_PHASES": "-", "SLOT": "0", "INHERIT": " ".join(direct), "INHERITED": " ".join(inherited), "KEYWORDS": "x86", "DESCRIPTION": "d"}
+            fac = object.__new__(ES.package_factory)
+            fac.__dict__.update({"_ecache": Ecache(), "_cache": (Cache(),)}) if hasattr(fac, "__dict__") else None
+            for k, v in (("_ecache", Ecache()), ("_cache", (Cache(),))):
+                try:
+                    object.__setattr__(fac, k, v)
+                except Exception:
+                    pass
+            pkg = types.SimpleNamespace(eapi=get_eapi("8"), path="/repo/cat/pkg/pkg-1.ebuild", cpvstr="cat/pkg-1")
+            real = ES.processor.reuse_or_request
+            ES.processor.reuse_or_request = lambda ebp=None: contextlib.nullcontext(Proc())
+            cases += 1
+            try:
+                data = fac._update_metadata(pkg)
+            except Exception as e:
+                if len(fails) < 3:
+                    fails.append({"model": {"INHERIT": list(direct), "INHERITED": inherited}, "detail": f"_update_metadata raised {type(e).__name__}: {e}"})
+                continue
+            finally:
+                ES.processor.reuse_or_request = real
+            rec = sorted(x for x, _ in (data.get("_eclasses_") or ()))
+            stored = sorted(x for x, _ in ((written[0][1].get("_eclasses_") or ()) if written else ()))
+            if rec != sorted(set(inherited)) or (written and stored != rec):
+                if len(fails) < 3:
+                    fails.append({"model": {"INHERIT": list(direct), "INHERITED": inherited},
+                                  "detail": f"ebuild inheriting {list(direct)} (sourced INHERITED {inherited}): the entry records the eclasses {rec} (stored: {stored}); every inherited eclass has to be recorded: {sorted(set(inherited))}"})
+    return {"name": "C48.update_metadata.bounded_enumeration", "bound": f"{len(combos) * 2} INHERIT / INHERITED combinations over eclass names that contain one another (multilib / multilib-minimal, cmake / cmake-multilib, e1 / e10), "
+            "through the real package_factory._update_metadata with a stub ebuild processor, eclass database and cache", "cases": cases, "failures": fails}
+
+
+def t_get_metadata(ex):
+    """package_factory._get_metadata over a stack of two caches with every combination of entry present / absent / unreadable, valid / stale,
+    read-only or not: a cached entry is returned only when validate_entry accepted it against the ebuild's current hash and the factory's
+    eclass database; a stale entry of a writable cache is deleted; otherwise the metadata is regenerated exactly once"""
+    import types
+    import pkgcore.ebuild.ebuild_src as ES
+    from pkgcore.cache import errors as cache_errors
+    from pyvc.api import call, Interp
+    from pyvc.interp import PyRaise
+    from pyvc.models import Model, ModelHost
+    from pyvc.sym import SObj, OutOfSubset
+    P = "C48.package_factory._get_metadata"
+    force = bool(ex.choose(2))
+    spec = []
+    for i in range(2):
+        entry = ("absent", "unreadable", "present")[ex.choose(3)]
+        valid = bool(ex.choose(2)) if entry == "present" else False
+        spec.append({"entry": entry, "valid": valid, "readonly": bool(ex.choose(2)), "consulted": 0, "validated": [], "deleted": 0})
+    ecache, hash_tok = object(), ("hash-of", "/repo/cat/pkg/pkg-1.ebuild")
+
+    class Cache(ModelHost):
+        def __init__(self, i):
+            self.i = i
+
+        def getattr(self, it_, name):
+            c = spec[self.i]
+            if name == "readonly":
+                return c["readonly"]
+            if name == "validate_entry":
+                def validate(it__, data, ebuild_hash, eclass_db):
+                    c["validated"].append((data, ebuild_hash, eclass_db))
+                    return c["valid"]
+                return Model(validate, "cache.validate_entry")
+            raise OutOfSubset(f"cache.{name}")
+
+        def getitem(self, it_, k):
+            c = spec[self.i]
+            c["consulted"] += 1
+            if c["entry"] == "absent":
+                raise PyRaise(KeyError(k))
+            if c["entry"] == "unreadable":
+                raise PyRaise(cache_errors.CacheCorruption(k, "bad"))
+            return ("entry-of-cache", self.i)
+
+        def delitem(self, it_, k):
+            spec[self.i]["deleted"] += 1
+
+        def truth_term(self, it_):
+            return True
+    regen = []
+    it = Interp(ex, label=P, models={ES.chksum.LazilyHashedPath: lambda it_, path: ("hash-of", path),
+                                     ES.package_factory._update_metadata: lambda it_, self_, pkg, ebp=None: (regen.append(pkg), "regenerated")[1]})
+    fac = SObj(ES.package_factory, {"_cache": (Cache(0), Cache(1)), "_ecache": ecache})
+    pkg = types.SimpleNamespace(path="/repo/cat/pkg/pkg-1.ebuild", cpvstr="cat/pkg-1")
+    out = call(it, it.target("src/pkgcore/ebuild/ebuild_src.py", "package_factory._get_metadata"), fac, pkg, force_regen=force)
+    ex.oblige(f"{P}.raises.nothing", not out.raised, kind="exceptional-postcondition")
+    if out.raised:
+        return
+    first_valid = None if force else next((i for i, c in enumerate(spec) if c["entry"] == "present" and c["valid"]), None)
+    tag = f"[{'force_regen, ' if force else ''}" + ", ".join(f"{c['entry']}{'/valid' if c['valid'] else '/stale' if c['entry'] == 'present' else ''}{'/ro' if c['readonly'] else ''}" for c in spec) + "]"
+    if first_valid is None:
+        ex.oblige(f"{P}.ensures.regenerated_exactly_once_when_no_cache_holds_a_valid_entry{tag}", out.value == "regenerated" and regen == [pkg])
+    else:
+        ex.oblige(f"{P}.ensures.the_first_valid_cached_entry_is_used_and_nothing_regenerated{tag}", out.value == ("entry-of-cache", first_valid) and regen == [])
+    for i, c in enumerate(spec):
+        reached = not force and (first_valid is None or i <= first_valid)
+        ex.oblige(f"{P}.ensures.caches_are_consulted_in_order_until_one_is_valid{tag}", c["consulted"] == (1 if reached else 0))
+        ok_args = all(d == ("entry-of-cache", i) and h == hash_tok and e is ecache for d, h, e in c["validated"])
+        ex.oblige(f"{P}.ensures.an_entry_is_validated_against_the_current_ebuild_hash_and_the_eclass_database{tag}",
+                  ok_args and len(c["validated"]) == (1 if reached and c["entry"] == "present" else 0))
+        ex.oblige(f"{P}.ensures.a_stale_entry_is_deleted_from_a_writable_cache_only{tag}",
+                  c["deleted"] == (1 if reached and c["entry"] == "present" and not c["valid"] and not c["readonly"] else 0))
+
+
 def tasks():
     return [
         Task("C48.rebuild_cache_entry", t_rebuild, [(F_ECL, "base.rebuild_cache_entry")], enumerate=enum_rebuild),
         Task("C48.validate_entry", t_validate, [(F_CACHE, "base.validate_entry")], enumerate=enum_validate_histories),
+        Task("C48.get_metadata", t_get_metadata, [("src/pkgcore/ebuild/ebuild_src.py", "package_factory._get_metadata")]),
+        Task("C48.update_metadata", None, [("src/pkgcore/ebuild/ebuild_src.py", "package_factory._update_metadata")], enumerate=enum_update_metadata),
     ]
 
 
